@@ -71,6 +71,14 @@ var harnesses = map[string]*Harness{
 		},
 		GoMaxProcs: 2,
 	},
+	"h5cache": {
+		PkgDir:   zz + "h5cache",
+		TestName: "TestVerifH5Cache",
+		Files: map[string]string{
+			zz + "h5cache/h5cache_test.go": "harness/h5cache/h5cache_test.go",
+		},
+		GoMaxProcs: 2,
+	},
 	"h5db": {
 		PkgDir:   zz + "h5db",
 		TestName: "TestVerifH5DB",
@@ -82,6 +90,20 @@ var harnesses = map[string]*Harness{
 }
 
 var checks = []Check{
+	{
+		Property: "C16", Harness: "h5cache", Level: "exploration",
+		Quick:        tierCfg{budget: 40, shrink: 400},
+		Thorough:     tierCfg{budget: 900, shrink: 3000},
+		Rule:         "one evaluation = one history (<= 80 quick / 200 thorough steps) over an evolving entry set on one live ChainState: add / remove / change value keeping length / flip embedded<->hashed / re-insert removed key / clear cache / reset instance / change capacity / compute root (cached vs uncached, sometimes in permuted order); keys share long bit prefixes; capacity knob in {1,2,3,7,64,600}; non-trivial = >= 3 root computations over a pool of >= 3 keys; distinct = decision tape hash",
+		Real:         []string{"internal/blockchain.ChainState.ComputeStateRootWithCache / ClearKeyLevelCache / ResetInstance, KeyLevelCache", "internal/utilities/merklization (cached and uncached walks)"},
+		Stub:         []string{vrfStub + " (only so that the package compiles; not executed)"},
+		Assumptions:  []string{"oracle = the repository's own uncached root for the same entries (the property is an equivalence); an independent bit-level reference trie is also evaluated and its disagreements are counted as a by-product (C15 is not claimed)"},
+		LevelText:    "seeded exploration of computation histories with the cache capacity as a randomised knob, explicit clears and instance resets as faults; evidence, not proof",
+		LevelNote:    "types.MaxKeyLevelCacheSize is a package variable and is varied by the harness; entries <= ~50 per history",
+		Technique:    "deterministic simulation: seeded operation histories on a long-lived component with randomised tuning knob, differential oracle (cached vs from-scratch), tape shrinking + fresh-process replay",
+		DesignRef:    "DESIGN.md §4 H5, §5 C16",
+		ExpectProbes: []string{"probe:value_changed_same_length", "probe:embedded_hashed_flip", "probe:key_reinserted", "fault:cache_cleared", "fault:instance_reset", "probe:capacity_exceeded_during_walk"},
+	},
 	{
 		Property: "C28", Harness: "h1tel", Level: "exploration",
 		Quick:        tierCfg{budget: 60, shrink: 300},
